@@ -519,4 +519,7 @@ def run(ctx):
     released_field_rule(ctx, P)
     vector_width_rule(ctx, P)
     exit_rule(ctx, P)
-    c14.run(ctx)
+    # the JSON writer sizes a buffer in one pass and fills it in another: the clauses that keep the two passes and the
+    # escaper's count and copy in step are memory-safety clauses; what the values say (E4) is C14's business only
+    from ..report import Only
+    c14.run(Only(ctx, ("EMIT.E1-two-passes", "EMIT.E2-accounting", "TAINT.E3-escaping")))
